@@ -535,6 +535,17 @@ class W09:
             k.children.clear()
             tree.children.append(k)
         tree.value = b"\xff" * 3
+        # ... and annotates a leaf in place (leaf.children.append(note))
+        leaf = tree
+        for _ in range(50):
+            kids = [c for c in leaf.children if c is not leaf]
+            if not kids:
+                break
+            leaf = kids[-1]
+        try:
+            leaf.children.append(type(tree)("caller.note", b"annotated by the caller"))
+        except Exception:  # noqa: BLE001
+            pass
 
     def do_cli(self, mode, source, i):
         import procsim
@@ -706,6 +717,7 @@ class W18:
         self._shipped_model = None
         self._D = None
         self._ast = None
+        self.plugins = []
 
     # -- helpers ------------------------------------------------------------
     def viol(self, clause, detail):
@@ -934,6 +946,8 @@ class W18:
                 self.check_registry(reg, custom, inc_l, exc_l, f"build_registry(custom={custom})")
             elif k == "par_build":
                 self.do_par_build(op[1], op[2])
+            elif k == "plugin":
+                self.do_plugin(op[1])
             elif k == "multidecoder":
                 from multidecoder.multidecoder import Multidecoder
 
@@ -952,6 +966,37 @@ class W18:
             else:
                 raise Harness("unknown op " + k)
         return {"violations": self.violations, "counters": self.counters, "events": self.events}
+
+    def do_plugin(self, variant):
+        """A decoder module that is not part of the shipped set joins the
+        package (a plug-in directory on multidecoder.decoders.__path__).  What
+        it marks with @decoder must be registered like everything else."""
+        import multidecoder.decoders as pkg
+
+        pdir = os.path.join(self.scratch, "plugins")
+        os.makedirs(pdir, exist_ok=True)
+        n = len(self.plugins)
+        name = f"zz_plugin{n}"
+        body = {
+            "plain": "@decoder\ndef find_plugin(data: bytes):\n    return []\n",
+            "wrapped": "def traced(f):\n    @functools.wraps(f)\n    def inner(data):\n        return f(data)\n    return inner\n\n\n@traced\n@decoder\ndef find_plugin(data: bytes):\n    return []\n",
+            "two": "@decoder\ndef find_plugin(data: bytes):\n    return []\n\n\n@decoder\ndef find_plugin_b(data: bytes):\n    return []\n\n\ndef helper(data: bytes):\n    return []\n",
+        }[variant]
+        with fsim._real_open(os.path.join(pdir, name + ".py"), "w") as fh:
+            fh.write("from __future__ import annotations\n\nimport functools\n\nfrom multidecoder.registry import decoder\n\n\n" + body)
+        if pdir not in list(pkg.__path__):
+            pkg.__path__.append(pdir)
+        import importlib
+
+        importlib.invalidate_caches()
+        funcs = ["find_plugin"] + (["find_plugin_b"] if variant == "two" else [])
+        self.plugins.append((name, funcs))
+        self._D = None  # the default registry has grown
+        D = self.default_decoders()
+        for fn in funcs:
+            if (name, fn) not in D:
+                self.viol("marked_not_registered", f"plug-in module {name} ({variant}) marks {fn} with @decoder but it is not in the default registry")
+        self.counters["plugins"] = self.counters.get("plugins", 0) + 1
 
     def do_par_build(self, jobs, spec):
         """Several threads build registries at the same time (typically as the
@@ -1142,6 +1187,9 @@ class W20:
                 argv.append(flag)
             if kwdir:
                 argv += ["-k" if run.get("short") else "--keywords", kwdir]
+            elif run.get("kw_empty"):
+                # a wrapper passed an unset variable: --keywords "" (no custom directory is named)
+                argv += ["--keywords="] if run.get("short") else ["--keywords", ""]
             stdin = data
             fifo = None
             if run["source"] == "file":
@@ -1189,6 +1237,8 @@ class W20:
                 self.counters["fault_runs"] += 1
                 self.check_faulty(mode, r, tree, ctree, data, outputs.get(mode))
                 continue
+            if (r["status"] != 0 or r["stderr"]) and run.get("kw_empty") and not kwdir and not out:
+                continue  # refusing an empty --keywords value is fine; printing another tree is not
             if r["status"] != 0 or r["stderr"]:
                 self.viol("cli_failed", f"{mode}/{run['source']}: status {r['status']} stderr {r['stderr'][-300:]!r}")
                 continue
@@ -1228,6 +1278,28 @@ class W20:
             self.viol("equal_trees_compare_unequal", f"{where}: field-wise identical trees compare unequal")
         if not model.parent_links_ok(back, None):
             self.viol("roundtrip_parent_links", f"{where}: a child's parent is not the node that lists it (or the root has a parent)")
+        # the pass-through keyword arguments of both functions must not change what comes back
+        from collections import OrderedDict
+
+        from multidecoder.json_conversion import tree_to_json
+
+        variants = [
+            ({}, {"object_pairs_hook": OrderedDict}),
+            ({"indent": 1, "sort_keys": True}, {}),
+            ({"separators": (",", ":"), "ensure_ascii": False}, {"parse_int": int, "strict": False}),
+            ({"indent": "\t"}, {"object_hook": lambda d: d}),
+        ]
+        enc_kw, dec_kw = variants[self.w.get("io_seed", 0) % len(variants)]
+        try:
+            again = json_to_tree(tree_to_json(tree, **enc_kw), **dec_kw)
+            ca = model.canon(again)
+            self.counters["kwarg_roundtrips"] = self.counters.get("kwarg_roundtrips", 0) + 1
+            if ca != ctree:
+                self.viol("roundtrip_differs", f"{where}: with tree_to_json(**{sorted(enc_kw)}) / json_to_tree(**{sorted(dec_kw)}): {model.canon_diff(ctree, ca)}")
+            elif not model.parent_links_ok(again, None):
+                self.viol("roundtrip_parent_links", f"{where}: with keyword arguments {sorted(enc_kw)} / {sorted(dec_kw)}")
+        except Exception as ex:  # noqa: BLE001
+            self.viol("roundtrip_not_a_tree", f"{where}: with tree_to_json(**{sorted(enc_kw)}) / json_to_tree(**{sorted(dec_kw)}): {type(ex).__name__}: {ex}")
         # a consumer that keeps only some descendants (hits = [n for n in tree if ...]) still
         # reaches every ancestor through .parent
         kept = []
